@@ -25,7 +25,8 @@ package encoding
 import (
 	"bytes"
 	"encoding/json"
-	"fmt"
+	"math"
+	"strconv"
 	"strings"
 
 	"github.com/danos/encoding/rfc7951"
@@ -57,7 +58,14 @@ func decodeValue(val interface{}) (string, error) {
 			return "false", nil
 		}
 	case float64: // Non-empty Leaf containing number of any sort
-		return fmt.Sprintf("%d", int(typeValue)), nil
+		// Only a whole number that fits an int64 has an integer form; any
+		// other number keeps its exact decimal form, so that the schema
+		// type decides whether it is acceptable (3.7 must not become "3").
+		if typeValue == math.Trunc(typeValue) &&
+			typeValue >= -9223372036854775808.0 && typeValue < 9223372036854775808.0 {
+			return strconv.FormatInt(int64(typeValue), 10), nil
+		}
+		return strconv.FormatFloat(typeValue, 'f', -1, 64), nil
 	case nil: // Empty leaf
 		return "", nil
 	default:
